@@ -236,7 +236,13 @@ def oracle(run: runner.Run, oc: Outcome) -> None:
     if t_fail is not None and not cancelled and (t_stop is None or t_stop > t_fail):
         if t_exit is None:
             if t_end - t_fail > bound:
-                oc.add('C20/lingering', 'daemon-outlived-session' if outlived else f'after-{fail_kind}-failed',
+                # a failed login met only by the resource watchers (the root tasks sit on streams opened before and
+                # ask for nothing): it is the watchers that fail, and a failed watcher is not escalated (known)
+                only_watchers = fail_kind == 'login' and any(
+                    e[2] == 'watch-exit' and e[3] == actor and str(e[6]) == 'error:LoginError' for e in trace) and not any(
+                    e[2] == 'req' and e[4] == actor and e[1] > t_fail for e in trace)
+                oc.add('C20/lingering', 'daemon-outlived-session' if outlived else
+                       'after-watcher-failed' if only_watchers else f'after-{fail_kind}-failed',
                        f"an essential task failed at t={t_fail:.3f} ({fail_kind}) but kopf.operator() is still running "
                        f"at t={t_end:.1f} (bound {bound:.1f}s): half-alive")
         else:
